@@ -77,7 +77,8 @@ class HeaderProbe:
         if valgrind:
             cmd = ["valgrind", "-q", "--error-exitcode=97", "--leak-check=no"] + cmd
         rc, out, err, _ = run(cmd, timeout=600 if valgrind else 60)
-        res["files"]["probe.out"] = out[-200000:]
+        res["files"]["probe.out"] = out if len(out) < 400000 else out[:250000] + "\n...[truncated]...\n" + out[-150000:]
+        res["bo"] = probes.parse_bo(out)
         if rc != 0:
             res.update(status="probe-crashed", stage="run", stderr=err[-3000:], rc=rc)
             return res
@@ -131,7 +132,7 @@ def classify(res, tag, model=None):
         return [("inconclusive", "rustc rejected the probe (harness): " + first_error(err), None)]
     if st == "probe-crashed":
         err = res.get("stderr", "")
-        bo = probes.parse_bo(res["files"].get("probe.out", ""))
+        bo = res.get("bo") or probes.parse_bo(res["files"].get("probe.out", ""))
         over = probes.span_over_64(bo)
         m = re.search(r"panicked at (\S+?):\d+:\d+:\n([^\n]*)", err)
         if m and ("/b_%s.rs" % tag) in m.group(1):
